@@ -77,9 +77,11 @@ theorem trace_ge_neg_one {a b c d e f g h i : α} (H : Rel a b c d e f g h i) : 
   by_contra hlt
   push Not at hlt
   have h3 : 0 < 3 - (a+e+i) := by linarith
-  have : (1 + (a+e+i)) * (3 - (a+e+i)) < 0 := by
+  have hneg : (1 + (a+e+i)) * (3 - (a+e+i)) < 0 := by
     apply mul_neg_of_neg_of_pos <;> linarith
-  nlinarith [sq_nonneg (h-f), sq_nonneg (c-g), sq_nonneg (d-b)]
+  have hpos : 0 ≤ (h-f)^2 + (c-g)^2 + (d-b)^2 := by positivity
+  rw [key] at hneg
+  exact absurd hpos (not_le.2 hneg)
 
 theorem horn {a b c d e f g h i : α} (H : Rel a b c d e f g h i) : a + e - i ≤ 1 := by
   have H' : Rel (-a) (-b) c (-d) (-e) f (-g) (-h) i := by
